@@ -15,20 +15,24 @@
 (* entry selected by the query index, the coset element at the query        *)
 (* position) and the challenges it reads.  The adversary picks one class:   *)
 (*   static    - one element of one component is replaced after the proof   *)
-(*               was made (shape preserving); a challenge squeezed after    *)
-(*               the component was absorbed is re-randomised and every      *)
-(*               check reading it fails (ideal hash);                       *)
-(*   vd        - the proof is presented with other verifier data;           *)
+(*               was made (shape preserving), or the proof is presented     *)
+(*               with other verifier data; a challenge squeezed after the   *)
+(*               component was absorbed is re-randomised and every check    *)
+(*               reading it fails (ideal hash); a check that reads only     *)
+(*               ONE element of the touched component MAY miss the change;  *)
 (*   adaptive  - the prover deviates in ONE place before the message is     *)
 (*               absorbed (hook H8 knobs, proofs for violating              *)
 (*               assignments), the rest of the transcript is consistent,    *)
 (*               so exactly the relations `breaks` fail.                    *)
 (* Native verdict = every native check passes (first failing check          *)
-(* recorded, in native order); circuit satisfiable = every circuit          *)
-(* constraint group (minus `Disabled`) holds.  Obligations:                 *)
-(*   Agree      CircuitSat <=> NativeAccept for every class,                *)
+(* recorded, in native order; "any" when only position-dependent checks     *)
+(* can fail); circuit verdict = the same evaluation of the circuit's        *)
+(* constraint groups (minus `Disabled`) under the circuit's own schedule.   *)
+(* Obligations:                                                             *)
+(*   Agree      circuit verdict = native verdict for every class,           *)
 (*   FS3        circuit schedule = native schedule (same challenges),       *)
-(*   Refines    check-by-check mapping: same ids, same read sets.           *)
+(*   Refines    check-by-check mapping: same ids, read sets, order,         *)
+(*   Adequate   every check is the (only) certain detector of some class.   *)
 (* `Disabled` is the canary dimension: with the grinding range check, the   *)
 (* final-polynomial equality, one Merkle cap or one challenge index of the  *)
 (* vanishing identity switched off on the circuit side TLC must find a      *)
@@ -39,11 +43,15 @@
 (* quantity differently: leading-zeros test vs. range check, `% lde_size`   *)
 (* vs. low bits of a bit decomposition, cap index, coset split.             *)
 (*                                                                          *)
-(* Part 3 (variable-degree mode of the STARK circuit, ASSUME over a         *)
-(* lattice of configurations).  One circuit sized for `maxdb` verifies      *)
-(* proofs of every degree mindb..maxdb: the degree-bits target drives       *)
-(* `step_active` bits, the Merkle path length selected from a shift         *)
-(* register of intermediate digests, and the zero-padded transcript.        *)
+(* Part 3 (variable-degree mode of the STARK circuit; instance "vararith":  *)
+(* one state per configuration of a lattice and proof degree, invariant     *)
+(* VarOK).  One circuit sized for `maxdb` verifies proofs of every degree   *)
+(* mindb..maxdb that can be assigned: the degree-bits target drives the     *)
+(* `step_active` bits (V1), the Merkle path length selected from a shift    *)
+(* register of intermediate digests (V3), and prover, native verifier and   *)
+(* circuit absorb the same zero-padded transcript (V4).  Instance           *)
+(* "starkvar" runs the check lists of Part 1 for one such circuit and every *)
+(* proof degree.                                                            *)
 (***************************************************************************)
 EXTENDS Naturals, Sequences, FiniteSets, TLC, Json
 
@@ -66,7 +74,6 @@ Digit(n) == <<"0", "1", "2", "3", "4", "5", "6", "7", "8", "9">>[n + 1]
 ----------------------------------------------------------------------------
 (* Part 3 first: the arithmetic of the variable-degree mode *)
 Pow2(n) == 2 ^ n
-Max(a, b) == IF a >= b THEN a ELSE b
 
 \* FriReductionStrategy::ConstantArityBits(a, f): number of reduction steps for degree bits d
 RECURSIVE Steps(_, _)
